@@ -25,6 +25,9 @@ def sig_oracle(modn=(), int_msg=False, blocks=False, ok_malleations=(), extra=No
             out.keys.add((s.scheme, 'decode-failed', tuple(s.faults())))
             return
         pre = s.opts.get('hash') == '1'
+        if any('1' in v for k, v in s.rc.items() if k in ('sig', 'prv', 'gen', 'genprv', 'ext')):
+            out.probe('signer-refused')
+            return              # the signer refused (e.g. a message longer than the scheme admits): nothing to verify
 
         def changed(f):
             r = s.m[f]
@@ -98,30 +101,34 @@ def nosub(field):
 # Schemes that read the message as an integer of Z_r: a zero message (or block) leaves part of the key
 # unauthenticated by the scheme's definition, so messages are random and at least 8 bytes per block.
 def lopt(rng):
-    return dict(k=rng.randint(1, 3), mlen=rng.choice([24, 31, 32, 33, 64, 96, 100]), mkind='rand')
+    return dict(k=rng.randint(1, 3), mlen=rng.choice([24, 31, 32, 33, 64, 96, 100, 300, 450]), mkind='rand')
 
 
 def imsg(rng):
-    return dict(mlen=rng.choice([8, 16, 31, 32, 33, 64, 100, 140]), mkind='rand')
+    return dict(mlen=rng.choice([8, 16, 31, 32, 33, 64, 100, 140, 150, 300]), mkind='rand')
 
 
 RER = [('sig', 'v_rerand')]
+# negating every component is the re-randomisation with t = -1: a valid signature by definition
+NEG2 = (('a:v_neg', 'b:v_neg'),)
+NEG3 = (('a:v_neg', 'b:v_neg', 'c:v_neg'),)
 
 SCHEMES.update({
     'bbs': Spec('C05', 4, dict(pk='g2', z='gt', sig='g1', msg='bytes'), sig_oracle(), pc=True,
                 opts=lambda rng: dict(hash=rng.below(2), mlen=rng.choice([0, 1, 20, 31, 32, 33, 64, 100, 129]))),
     'zss': Spec('C05', 4, dict(pk='g1', z='gt', sig='g2', msg='bytes'), sig_oracle(), pc=True,
                 opts=lambda rng: dict(hash=rng.below(2), mlen=rng.choice([0, 1, 20, 31, 32, 33, 64, 100, 129]))),
-    'cls': Spec('C05', 4, dict(x='g2', y='g2', a='g1', b='g1', c='g1', msg='bytes'), sig_oracle(int_msg=True), pc=True,
+    'cls': Spec('C05', 4, dict(x='g2', y='g2', a='g1', b='g1', c='g1', msg='bytes'),
+                sig_oracle(int_msg=True, ok_malleations=NEG3), pc=True,
                 opts=imsg, extra_faults=RER),
     'cli': Spec('C05', 4, dict(x='g2', y='g2', z='g2', a='g1', A='g1', b='g1', B='g1', c='g1', r='bn', msg='bytes'),
                 sig_oracle(int_msg=True, modn=('r',)), pc=True, opts=imsg),
     'clb': Spec('C05', 4, dict(x='g2', y='g2', a='g1', b='g1', c='g1', msg='bytes'),
                 sig_oracle(int_msg=True, blocks=True), pc=True, opts=lopt,
                 extra_faults=[('z0', 'v_dbl'), ('A0', 'v_rand'), ('B0', 'flip'), ('z0', 'flip'), ('A1', 'v_neg'), ('B1', 'v_dbl')]),
-    'pss': Spec('C05', 4, dict(g='g2', x='g2', y='g2', a='g1', b='g1', m='bn'), sig_oracle(modn=('m',)), pc=True,
+    'pss': Spec('C05', 4, dict(g='g2', x='g2', y='g2', a='g1', b='g1', m='bn'), sig_oracle(modn=('m',), ok_malleations=NEG2), pc=True,
                 opts=imsg, extra_faults=RER),
-    'psb': Spec('C05', 4, dict(g='g2', x='g2', y0='g2', a='g1', b='g1', m0='bn'), sig_oracle(modn=('m0', 'm1', 'm2')), pc=True,
+    'psb': Spec('C05', 4, dict(g='g2', x='g2', y0='g2', a='g1', b='g1', m0='bn'), sig_oracle(modn=('m0', 'm1', 'm2'), ok_malleations=NEG2), pc=True,
                 opts=lambda rng: dict(k=rng.randint(1, 3))),
     'vbnn': Spec('C05', 5, dict(mpk='ec', R='ec', z='bn', h='bn', id='bytes', msg='bytes'), sig_oracle()),
     'pokdl': Spec('C05', 4, dict(y='ec', c='bn', r='bn'), sig_oracle(), weight=6),
@@ -379,7 +386,7 @@ def o_match(s, ctx, v, out):
 
 SCHEMES.update({
     'etrs': Spec('C05', 5, dict(pp='ec', td3='bn', y3='bn', ry0='bn', h0='ec', pk0='ec', c00='bn', c01='bn', r00='bn', r01='bn', msg='bytes'),
-                 sig_oracle(extra=etrs_extra), opts=lambda rng: dict(k=rng.below(3))),
+                 sig_oracle(extra=etrs_extra), opts=lambda rng: dict(k=rng.below(3), n=7 if rng.chance(0.04) else 3)),
     'smlers': Spec('C05', 5, dict(pp='ec', td='bn', h0='ec', pk0='ec', sc00='bn', sc01='bn', sr00='bn', sr01='bn', tau0='ec', c00='bn',
                                   c01='bn', r00='bn', r01='bn', tau1='ec', c10='bn', msg='bytes'),
                    sig_oracle(), opts=lambda rng: dict(k=rng.below(3))),
